@@ -208,8 +208,8 @@ func verifHarnessC06WriteEntries() {
 // completion while the sink is still copying the first record (the bytes handed to Write must stay the caller's own
 // until Write returns).
 type verifBusySink struct {
-	w      *audit.Writer
-	second *audit.Entry
+	w       *audit.Writer
+	second  *audit.Entry
 	nested  bool
 	err2    error
 	writes  [][]byte
